@@ -365,7 +365,7 @@ func c18UseWithoutHref(c *core.Check) {
 // later ones).  Every slice returned by parsePath is nil or the result of an append to nil (or to a fresh slice).
 func c18PathIsCopied(c *core.Check) {
 	p := c.Prog
-	r := c.Rule("R22", "a parsed path does not alias the parser's buffer: every non-nil slice returned by svg.(*pathParser).parsePath is the result of an append whose base is nil or a fresh slice, not a slice or a load of a field of the parser", 1)
+	r := c.Rule("R22", "a parsed path does not alias the parser's buffer: every non-nil slice returned by svg.(*pathParser).parsePath is a fresh slice (make) or the result of an append whose base is nil or a fresh slice, not a slice or a load of a field of the parser", 1)
 	fn := p.Method("svg", "pathParser", "parsePath")
 	if fn == nil {
 		r.Anchor("svg.(*pathParser).parsePath")
@@ -384,6 +384,9 @@ func c18PathIsCopied(c *core.Check) {
 		n++
 		key := fmt.Sprintf("svg.(*pathParser).parsePath | returned path #%d", n)
 		fresh := false
+		if _, ok := v.(*ssa.MakeSlice); ok {
+			fresh = true // make + copy
+		}
 		if call, ok := v.(*ssa.Call); ok {
 			if b, ok := call.Call.Value.(*ssa.Builtin); ok && b.Name() == "append" && len(call.Call.Args) > 0 {
 				switch base := call.Call.Args[0].(type) {
